@@ -1,3 +1,6 @@
+import IceTie.AgentDefaults
+import IceTie.AgentTick
+import IceTie.AgentDispatch
 import IceTie.AgentSwitch
 import IceTie.AgentSuccess
 import IceTie.AgentSelector
@@ -581,5 +584,60 @@ theorem C03_code_source_port (isUDPAddr isTCPAddr : Bool) (port : Int64) (parseF
   simp [h0, h1]
 
 example : IceGen.portFitsInUint16 65535 = true := by decide
+
+/-! ## Tie to the code (T, round 3): `nominatePair`, one iteration of `getBestValidCandidatePair`, the acceptance-wait defaults -/
+
+open IceTie.AgentDispatch in
+/-- `controllingSelector.nominatePair`: the nomination request carries USE-CANDIDATE, the controlling role, the local priority,
+the username `remote:local` and the remote password, and goes out through `sendBindingRequest`; the model's `nominate` is
+`sendRequest … true none`, whose datagram has exactly these fields -/
+theorem C03_code_nominatePair :
+    (∀ buildErr, IceGen.controllingSelector_nominatePair buildErr
+      = [c "attrs(BindingRequest,TransactionID,Username(remote:local),UseCandidate,Controlling,Priority)",
+         c "attrs+=(Integrity(remotePwd),Fingerprint)"] ++ (if buildErr then [] else [c "sendBindingRequest"])) ∧
+    (∀ (a : Agent) (now : Nat) (p : Pair) (l r : Cand), a.localOf p.l = some l → a.remoteOf p.r = some r →
+      a.nominate now p = a.sendRequest now l r true none) ∧
+    (∀ (a : Agent) (now : Nat) (l r : Cand) (uc : Bool) (nom : Option Nat), ∃ tid, (a.sendRequest now l r uc nom).2 =
+      [.dgram l.addr r.addr { cls := 0, tid := tid, user := some (a.remoteUfrag ++ ":" ++ a.localUfrag), key := some a.remotePwd,
+                               prio := some l.prio, useCand := uc, role := some (a.controlling, a.tieBreaker), nom := nom }]) :=
+  ⟨nominatePair_tie, nominate_model, sendRequest_msg⟩
+
+example : (IceGen.controllingSelector_nominatePair false).length = 3 ∧ (IceGen.controllingSelector_nominatePair true).length = 2 := by
+  decide
+
+open IceTie.AgentTick in
+/-- one iteration of `getBestValidCandidatePair` (the pair `ContactCandidates` nominates): only a Succeeded pair (state 4) can
+become `best`; the first one does, a later one only with a strictly higher priority; the model's `bestBy` folds the same step -/
+theorem C03_code_bestValid_iter :
+    (∀ state bestNil bestPrio pPrio, IceGen.agent_getBestValidCandidatePair_iter state bestNil bestPrio pPrio
+      = bestEffs (state == 4 && (bestNil || decide (bestPrio.toNat < pPrio.toNat)))) ∧
+    (∀ (a : Agent) (ok : Pair → Bool), a.bestBy ok = a.checklist.foldl (bestStep a ok) none) ∧
+    (∀ (a : Agent) (ok : Pair → Bool) (best : Option Pair) (p : Pair), bestStep a ok best p =
+      if ok p && (best.isNone || decide ((best.map a.pairPrio).getD 0 < a.pairPrio p)) then some p else best) :=
+  ⟨getBestValidCandidatePair_iter_tie, bestBy_fold, bestStep_take⟩
+
+example : IceGen.agent_getBestValidCandidatePair_iter 2 true 0 9 = IceTie.AgentTick.bestEffs false ∧
+    IceGen.agent_getBestValidCandidatePair_iter 4 false 5 5 = IceTie.AgentTick.bestEffs false ∧
+    IceGen.agent_getBestValidCandidatePair_iter 4 false 5 6 = IceTie.AgentTick.bestEffs true := by decide
+
+open IceTie.AgentDefaults in
+/-- agent_config.go `initWithDefaults`, nomination fields: `maxBindingRequests` 7, acceptance waits host 0 / srflx 500 ms /
+prflx 1 s / relay 2 s (0 for a relay-only agent) unless configured — the field defaults of the model's `Config` -/
+theorem C03_code_acceptance_defaults :
+    (∀ n1 v1 n2 v2 n3 v3 n4 v4 n5 v5 relayDefault,
+      IceGen.agentConfig_initWithDefaults_nomination n1 v1 n2 v2 n3 v3 n4 v4 n5 v5 relayDefault
+      = [setN "agent.maxBindingRequests" n1 7 v1, setI "agent.hostAcceptanceMinWait" n2 0 v2,
+         setI "agent.srflxAcceptanceMinWait" n3 500000000 v3, setI "agent.prflxAcceptanceMinWait" n4 1000000000 v4,
+         setI "agent.relayAcceptanceMinWait" n5 relayDefault v5]) ∧
+    (∀ one ty0, IceGen.defaultRelayAcceptanceMinWaitFor one ty0 = if one && ty0 == 4 then 0 else 2000000000) ∧
+    (∀ v w, IceGen.agentConfig_initWithDefaults_nomination true w true v true v true v true v (IceGen.defaultRelayAcceptanceMinWaitFor false 0)
+      = [IceModel.Eff.set "agent.maxBindingRequests" (IceModel.Val.n ({} : Config).maxBindingRequests),
+         IceModel.Eff.set "agent.hostAcceptanceMinWait" (IceModel.Val.i ({} : Config).hostWait),
+         IceModel.Eff.set "agent.srflxAcceptanceMinWait" (IceModel.Val.i ({} : Config).srflxWait),
+         IceModel.Eff.set "agent.prflxAcceptanceMinWait" (IceModel.Val.i ({} : Config).prflxWait),
+         IceModel.Eff.set "agent.relayAcceptanceMinWait" (IceModel.Val.i ({} : Config).relayWait)]) :=
+  ⟨initWithDefaults_nomination_tie, defaultRelayAcceptanceMinWaitFor_tie, fun v w => (defaults_model v w).1⟩
+
+example : IceGen.defaultRelayAcceptanceMinWaitFor true 4 = 0 ∧ IceGen.defaultRelayAcceptanceMinWaitFor true 1 = 2000000000 := by decide
 
 end IceProps.C03
